@@ -334,7 +334,7 @@ Definition augmented_get (O : oracle) (v : value) (idx : scalar) : option value 
       end
   | VScalar s =>
       let k := scalar_kstr O idx in
-      if str_eqb k k_size then Some (VScalar (SInt (utf8_len (scalar_kstr O s)))) else None
+      if str_eqb k k_size then Some (VScalar (SInt (Z.of_nat (length (scalar_kstr O s))))) else None   (* characters, after the repair *)
   | _ => None
   end.
 Fixpoint try_find (O : oracle) (v : value) (path : list scalar) : option value :=
